@@ -259,6 +259,30 @@ func init() {
 			}
 			emit(parts, total, strconv.Itoa(total), "boundary-cuts")
 		}
+		// a first record that is rejected (wrong type / version outside the range), followed by a complete well-formed
+		// handshake record, with a read boundary before, at and after the start of the second record: the stream's FIRST
+		// record decides, whatever arrives later and however it is cut
+		for _, first := range []string{hdr(23, 0x0303, 2) + "+0102", hdr(22, 0x0305, 2) + "+0102", hdr(21, 0x0301, 0), hdr(22, 0x0200, 1) + "+01", hdr(0, 0, 3) + "+010203"} {
+			fl := 5
+			for _, p := range strings.Split(first, "+")[1:] {
+				fl += len(p) / 2
+			}
+			second := hdr(22, 0x0301, 4) + "+01000000"
+			total := fl + 9
+			for _, a := range []int{1, 4, 5, fl - 1, fl, fl + 1, fl + 5, total} {
+				if a < 1 || a > total {
+					continue
+				}
+				cuts := []int{a}
+				if total-a > 0 {
+					cuts = append(cuts, total-a)
+				}
+				emit(first+"+"+second, total, cutsStr(cuts), "rejected-then-valid")
+				if a < fl && total-fl > 0 {
+					emit(first+"+"+second, total, cutsStr([]int{a, fl - a, total - fl}), "rejected-then-valid")
+				}
+			}
+		}
 		// random: structured streams and cuts, failing reads, truncated delivery, zero-length reads
 		for i := 0; i < c.count; i++ {
 			r := c.rng.fork()
